@@ -284,7 +284,7 @@ def run(run):
         if not run.mine(i):
             continue
         r = run.rng("schema", i)
-        decls = cansch.gen_can_schema(r, second_bindings=True, bitstart=True)
+        decls = cansch.gen_can_schema(r, second_bindings=True, bitstart=True, odd_buses=True)
         check_schema(run, decls, r, i)
 
 
